@@ -20,7 +20,8 @@
 (***************************************************************************)
 EXTENDS RoundingDefs, Sequences, FiniteSets
 
-CONSTANT LegacyImsaak    \* TRUE = pre-fix get_imsaak (finding D7): only the Imsaak-adjusted run's flag is looked at
+CONSTANTS LegacyImsaak,     \* TRUE = pre-fix get_imsaak (finding D7): only the Imsaak-adjusted run's flag is looked at
+          LegacyImsaakFlag  \* TRUE = pre-fix get_imsaak (finding D8): the interval fallback does not flag Imsaak extreme
 
 Imsaak == 1  Fajr == 2  Shurooq == 3  Dhuhr == 4  Asr == 5  Maghrib == 6  Isha == 7
 P6 == 2..7
@@ -161,8 +162,11 @@ ImsaakNeedsPass2(P, env) ==
         m == Hours(P, env)[Fajr]
     IN (f.ok /\ f.x) \/ (~LegacyImsaak /\ m.ok /\ m.x)
 ImsaakParams(P, env) == IF ImsaakNeedsPass2(P, env) THEN ImsaakP2(P) ELSE ImsaakP1(P)
+\* an Imsaak obtained by the interval fallback is itself extreme (since the repair of D8)
 ImsaakTime(P, env) ==
-    LET Q == ImsaakParams(P, env) IN ToTime(Q, Fajr, Hours(Q, env)[Fajr])
+    LET Q == ImsaakParams(P, env)
+        t == ToTime(Q, Fajr, Hours(Q, env)[Fajr])
+    IN IF t.ok /\ ImsaakNeedsPass2(P, env) /\ ~LegacyImsaakFlag THEN [t EXCEPT !.x = TRUE] ELSE t
 
 \* the public result: seven entries
 Result(P, env) ==
